@@ -6,6 +6,8 @@ R-WAIT-OUTCOME  in handle_hold_tap, Hold is produced only by a per-variant early
          release-vs-timeout tail produces only Tap / Timeout.
 R-GATE   the input queue is not dequeued while a decision is pending or input processing is paused.
 """
+import re
+
 from kq.analysis import backward_slice, blocks_calling, discr_switches
 from kq.core import callee_name, callee_written, is_place, proj_fields
 from kq.report import RuleResult
@@ -260,7 +262,13 @@ def rule_permissive(prog):
                         tc = g.term(nxt_c) if nxt_c is not None else None
                         taken = tc is not None and tc["k"] == "switch" and bi not in g.reach_from(
                             ([tb for v, tb in tc["ts"] if v == 0] or [tc["o"]])[0], avoid=[nxt_c, cb] + nexts)
-                        if lst and pushes and all(press_only(pb_) for pb_ in pushes) and taken:
+                        # the list starts empty: nothing but the press-guarded pushes fills it
+                        m_ = re.match(r"_(\d+)$", lst or "")
+                        starts_empty = False
+                        if m_:
+                            d_ = g.single_def(int(m_.group(1)))
+                            starts_empty = bool(d_ and d_[2] == "call" and (callee_name(d_[3]) or "").split("::")[-1] in ("new", "with_capacity", "default"))
+                        if lst and pushes and all(press_only(pb_) for pb_ in pushes) and taken and starts_empty:
                             ok = True
                 key = "%s/decision-%s-on-press-only" % (g.norm.split("custom_tap_hold::")[-1], rv["v"])
                 res.inst(key, ok=ok)
